@@ -1,26 +1,26 @@
 CLAIMS = {
  "C01": ("typed-AST table extraction + sibling-skeleton comparison against a frozen operator table",
          "Decides: operator symbol -> opcode -> handler -> py API -> dunder chain; dispatch skeleton (operand order, reflection guard). "
-         "Does not decide: computed values, run-time dunder lookup on user classes. Trusted: go/types, the operator table in gpycheck/c01_ops.go.",
+         "Also decides: the unpack_iterable decision table (store order of UNPACK_SEQUENCE/UNPACK_EX targets). Does not decide: computed values, run-time dunder lookup on user classes. Trusted: go/types, the operator table in gpycheck/c01_ops.go.",
          "DESIGN.md §4 C01"),
  "C09": ("must-hold lockset walk + statement-order/pairing analysis over the context lifecycle methods (typed AST)",
          "Decides: release iff admitted in every caller; lifecycle fields only under the context mutex; closed-test and increment in one critical section; "
          "closed set in the critical section that observes quiescence (or before the wait); wait < callbacks < close(done) inside sync.Once; entry points admitted first. "
-         "Does not decide: liveness/deadlock freedom, re-entrant Close from inside an execution. Trusted: go/types, sync semantics.",
+         "Also decides: close callbacks enumerated from the module table itself (exactly once per module). Does not decide: liveness/deadlock freedom, re-entrant Close from inside an execution. Trusted: go/types, sync semantics.",
          "DESIGN.md §4 C09"),
  "C05": ("edge-sensitive error-value flow on go/ssa (iterator errors) + symbolic path interpretation of Generator.Send and the yield opcodes",
          "Decides: every consumer of py.Next/Send/M__next__ propagates or classifies (StopIteration only) the error; iteration hubs' errors propagated; generator typestate "
          "(Running bracket, finished stays finished, exception exit finishes, return value carried, send pushed once on resume), yield/return opcode protocol, yield-before-unwind. "
-         "Does not decide: that the code between two yields is 'exactly the code up to the next yield' (VM semantics); throw()/close() (unimplemented in gpython).",
+         "Also decides: no ineffective break (tail of a switch case inside a loop) in the iteration hubs. Does not decide: that the code between two yields is 'exactly the code up to the next yield' (VM semantics); throw()/close() (unimplemented in gpython).",
          "DESIGN.md §4 C05"),
  "C12": ("abstract interpretation of opcode handlers over a symbolic stack vs the compiler's stack-effect table; table/dispatch exhaustiveness; jump-addressing agreement (typed AST)",
          "Decides: per-opcode handler net stack effect = opcodeStackEffect (+stackDepthWalk jump adjustments) on every successful path; every opcode handled and every emitted opcode tabled; "
-         "abs/rel jump agreement between emitter and handlers; argument-taking agreement. Does not decide: the property's second sentence (depths actually reached at run time), "
+         "abs/rel jump agreement between emitter and handlers; argument-taking agreement. Also decides: the EndsWithReturn decision table (a trailing label is not a return). Does not decide: the property's second sentence (depths actually reached at run time), "
          "line-table monotonicity for every program, StackDepth's walk being the maximum over all paths.",
          "DESIGN.md §4 C12"),
  "C02": ("decision-table extraction by symbolic interpretation of the unwinding loop (block type x reason); emission-trace comparison of statement code schemes",
          "Decides: the unwinder's (block, why) table (pop/unwind/pushes/exception-state swap/Lasti/leave) against ceval.c fast_block_end; code schemes of for/while/if/try/with/break/continue/raise/assert/return. "
-         "Does not decide: END_FINALLY/WITH_CLEANUP stack juggling beyond net effects (C12), __exit__ return-value semantics, traceback content across frames.",
+         "Also decides: the SETUP_WITH decision table (block pushed only after __enter__ returned). Does not decide: END_FINALLY/WITH_CLEANUP stack juggling beyond net effects (C12), __exit__ return-value semantics, traceback content across frames.",
          "DESIGN.md §4 C02"),
  "C04": ("emission-trace comparison of the call-site and function-object protocols (symbolic interpretation of the compiler); grammar-action analysis with an own yacc reader; raise-site census and loop-bound structure of the binders (typed AST)",
          "Decides: push order of callee/positionals/keyword pairs/*/**, opcode by star forms, packed argc; decorators, defaults, kw-defaults, annotations, closure, code, qualname order for MAKE_FUNCTION/MAKE_CLOSURE; arglist actions extend the call node with append; keyword-only defaults stay aligned with their arguments; "
@@ -38,7 +38,7 @@ CLAIMS = {
  "C11": ("recover-barrier recognition, panic-argument classification with exhaustiveness discharge, comma-ok/nil-dereference lint, lost-update lint, compiler-proved bounds checks (go build -d=ssa/check_bce) and unchecked-assertion census against confirmed tables",
          "Decides: each pipeline stage is a recover barrier and nothing that can panic runs outside one; every explicit panic is SyntaxError-family, a re-panic from a barrier, provably unreachable (exhaustive switch) or a confirmed row; "
          "comma-ok results are never dereferenced on the failing branch; struct-copy updates are not lost; every index/slice the Go compiler cannot prove and every unchecked type assertion is a confirmed row. "
-         "Does not decide: termination of the lexer/parser, pathological slowness; the confirmed rows are beliefs checked by reading, not proofs.",
+         "Also decides: the assembler's give-up limit scales with the instruction count. Does not decide: termination of the lexer/parser, pathological slowness; the confirmed rows are beliefs checked by reading, not proofs.",
          "DESIGN.md §4 C11"),
  "C08": ("SSA scan for stores rooted at package-level variables with call-graph init-only classification; must-hold lockset on the registry; who-may-write censuses for ModuleImpl/Code fields; module-global container sharing analysis",
          "Decides: no run-time write of package-level state outside initialisers/hooks (known finding: repl rebinding vm.PrintExpr); registry accessed under its mutex; module instances get their own containers; ModuleImpl (and anything reached from one through a parameter) and Code are not written after construction; exception fields are stored only by the allocating function (known finding: vm.raise Cause); "
@@ -54,11 +54,11 @@ CLAIMS = {
          "DESIGN.md §4 C06"),
  "C10": ("recover-barrier recognition and coverage (typed AST): barrier-first in RunFrame/EvalCode/py.Call, single handler dispatch site under a barrier, hooks bound to barrier functions, delivery shape of the deferred closures, census of process-exit calls and goroutines",
          "Decides: every execution path from the run/call API to opcode handlers and builtins passes through a barrier that converts a recovered panic into the returned error; no goroutine / os.Exit / log.Fatal escape route in library code. "
-         "Does not decide: that no builtin panics (the barriers hold them back; they surface as SystemError), nor the exception class delivered for an internal fault.",
+         "Also checks for a recursion bound on the frame evaluator's call cycle (known finding: absent). Does not decide: that no builtin panics (the barriers hold them back; they surface as SystemError), nor the exception class delivered for an internal fault.",
          "DESIGN.md §4 C10"),
  "C03": ("decision-table extraction by symbolic interpretation (AnalyzeName, AddDef, NameOp) against tables transcribed from CPython symtable.c/compile.c; statement-order and aliasing rules for AnalyzeChildBlock/EvalCode",
          "Decides: the scope classification table (flags x block kind x enclosing sets -> scope), the definition table (AddDef), scope x context -> opcode family and index space (NameOp), child-block analysis on copies of the parent's sets, "
-         "cell/free slot layout agreement between compiler, closure builder and EvalCode. Does not decide: run-time lookup order in LOAD_NAME/LOAD_GLOBAL for a particular program (values), name mangling (unimplemented in gpython).",
+         "cell/free slot layout agreement between compiler, closure builder and EvalCode. Also decides: the AnalyzeBlock decision table (class-block copies before own names) and that every total_args is Argcount+Kwonlyargcount. Does not decide: run-time lookup order in LOAD_NAME/LOAD_GLOBAL for a particular program (values), name mangling (unimplemented in gpython).",
          "DESIGN.md §4 C03"),
  "C13": ("may-alias (storage-sharing) propagation on go/ssa with per-function summaries; typed-AST structure rules on the slice normaliser and its consumers",
          "Decides: the clause 'results never alias a mutable operand' as a census — no function of py/vm/stdlib returns or keeps storage shared with a container argument unless on a reviewed list; no view of the VM value stack becomes an object; no append onto an immutable operand's array. "
@@ -72,7 +72,7 @@ CLAIMS = {
  "C07": ("typed-AST guard analysis (structured dominance) of partial machine operators; constant evaluation by the type checker; operator/comparison/reflection tables; type-switch reachability",
          "Decides necessary structural conditions of exact integer arithmetic: representation constants (IntMax, IntMin, sqrtIntMax = isqrt(IntMax)); every -x on a word excludes IntMin, every / and % tests the divisor (and IntMin / -1), every shift by a converted signed count tests < 0, every big.Int division tests the sign; "
          "overflow guards compare in the direction of the limit they mention; each of the six comparisons of Int/BigInt/Bool uses its own operator; reflected non-commutative methods exchange the operands; the floor-division fix-up depends on the divisor's sign; no type-switch arm is shadowed. "
-         "Does not decide: the numerical results themselves (2**128 operand pairs), text conversion digit by digit, pow/three-argument pow, the correctness of the bounds inside a guard beyond direction and the frozen constants.",
+         "Also decides: mutating math/big calls only on receivers the function allocated. Does not decide: the numerical results themselves (2**128 operand pairs), text conversion digit by digit, pow/three-argument pow, the correctness of the bounds inside a guard beyond direction and the frozen constants.",
          "DESIGN.md §4 C07"),
  "C15": ("typed-AST guard analysis of float/complex division; comparison/reflection tables; protocol and tower-coverage checks; constant-exactness and threshold evaluation by the type checker",
          "Decides necessary structural conditions: float and complex /, //, % test the divisor and raise ZeroDivisionError; Float/Complex comparisons use their own operator; reflected methods exchange operands; numeric binary methods answer NotImplemented for operands they cannot convert; "
@@ -82,7 +82,7 @@ CLAIMS = {
  "C14": ("per-function unit inference (character counts vs byte offsets) over the typed AST of the string code; writer/reader escape-table agreement; constant evaluation",
          "Decides: Go string slices/indexes use byte offsets only (or sit under an ASCII guard), String.pos/slice receive character positions only, the two index spaces are never added, positions returned to Python count characters, a one-byte window stands for a character only under an ASCII guard; "
          "every escape form repr writes is decoded by the literal reader with the same width; chr() rejects exactly from 0x110000; the one-element tuple repr has its comma. "
-         "Does not decide: the results of search/split/strip/replace for all strings, comparison order, the full repr/eval round trip for every value (floats and nested containers are values), normalisation of negative start/end in count/find.",
+         "Also decides: every return of StringEscape lies after its per-character loop. Does not decide: the results of search/split/strip/replace for all strings, comparison order, the full repr/eval round trip for every value (floats and nested containers are values), normalisation of negative start/end in count/find.",
          "DESIGN.md §4 C14"),
  "C16": ("typed-AST phase-order analysis of the generic attribute read; decision tables of the binding methods by symbolic path enumeration; call-graph reachability; loop-bound structure of the C3 merge; storage-sharing analysis on class creation",
          "Decides: a class read consults the class's own MRO and binds with __get__(None, class); the phases of the generic read come in the defined order with the defined __get__ arguments; Function/Method bind the instance, ClassMethod the class, StaticMethod nothing; "
